@@ -352,14 +352,19 @@ mk('C14', ['TopK','AllocProofs','SplitProofs','AllocMin','AllocGlue','GenLang3',
    lifted('C14_alloc_min_disk','AllocMin','alloc_min_disk','last clause, the allocation step: for any non-negative per-position weights w, the labelling allocate_snapshots computes (alloc_labels w r) puts the least total weight on DISK among all RAM/DISK labellings with at most r RAM positions'),
    lifted('C14_disk_accesses_are_weights','AllocGlue','disk_accesses_are_weights','the glue: for every configuration c with the same max_n, trajectory and number of labels as the dry-run configuration c0, the number of accesses (checkpoint writes + loads) of its stream that name storage st is lsum st (labels c) w, w = the weights allocate_snapshots computes from the dry run; (streams are taken over fuel_for N requests, as in the model of allocate_snapshots)'),
    lifted('C14_min_disk_accesses','AllocGlue','multistage_min_disk','LAST CLAUSE: the constructed MultistageCheckpointSchedule(N, ram, disk) has the fewest DISK accesses among all label vectors of the same length with at most min(ram, N-1) RAM positions (all three constructor branches)')])
-mk('C15', ['MemoCoh','SchedProofs','GenLang','GenBasic','GenLang2','GenTwo','GenLang3','GenMulti','GenLang4','GenConv','GenLang5','GenMixed','SeqGenSpec','HSeqGenSpec','ArgminGenSpec','HoptGenSpec','OptInfGenSpec','Opt0GenSpec','TabulGenSpec'], [
+mk('C15', ['MemoCoh','SchedProofs','GenLang','GenBasic','GenLang2','GenTwo','GenLang3','GenMulti','GenLang4','GenConv','GenLang5','GenMixed','SeqGenSpec','HSeqGenSpec','ArgminGenSpec','HoptGenSpec','OptInfGenSpec','Opt0GenSpec','TabulGenSpec','HelperCoh','MixHelperCoh','HelperGenSpec','MixHelperSpec'], [
    lifted('C15_basic_source_is_model','GenBasic','basic_from_start','THE STREAM IS A FUNCTION OF THE PARAMETERS AND THE REQUESTS: the generators, sequence generators, tables and planners below are re-translated from the source on every run (Gen/*.v) into pure Gallina terms -- no module-level or class-level state exists in them -- and proved to give the observations of the extracted model under every history; a source in which one object can influence another is outside the translated subset.  ' + BASIC_SRC),
    lifted('C15_twolevel_source_is_model','GenTwo','two_from_start',TWO_SRC), lifted('C15_multistage_source_is_model','GenMulti','multi_from_start',MULTI_SRC),
    lifted('C15_revolve_family_converter_is_source','GenConv','conv_from_start',CONV_SRC), lifted('C15_mixed_source_is_model','GenMixed','mixed_from_start',MIXED_SRC), seq_parts('C15'),
    lifted('C15_tabulation_is_source','TabulGenSpec','tabul_shape_is_model','the tabulated planner of Mixed (Gen/TabulGen.v)'),
    lifted('C15_memo_warm_planC','MemoCoh','memo_warm_planC','the memoised planner as the extracted iterator uses it (cache warmed by an arbitrary earlier call) returns the canonical plan for every sub-problem'),
    lifted('C15_memoS_total','MemoCoh','memoS_total','with enough fuel a call succeeds from any coherent cache'),lifted('C15_cache_coherent','MemoCoh','C15_cache_coherent','every cache reachable by any sequence of calls holds only correct entries'),
-   lifted('C15_history_independent','MemoCoh','C15_history_independent','a successful call returns the pure value whatever the call history')])
+   lifted('C15_history_independent','MemoCoh','C15_history_independent','a successful call returns the pure value whatever the call history'),
+   lifted('C15_helper_cache_coherent','HelperCoh','helper_cache_coherent','THE SECOND PROCESS-GLOBAL CACHE (cache_step around optimal_extra_steps, Model/Binomial.v EmS with the dictionary explicit -- the form the extracted driver runs and the correspondence compares with the implementation): every dictionary reachable by any sequence of calls holds only valid keys with the value EC n s of the pure dynamic program'),
+   lifted('C15_helper_history_independent','HelperCoh','helper_history_independent','... so a successful call returns, whatever the call history, the value of the pure recursion Binomial.Em (= BinomDP.Em by HelperCoh.Em_cv, which Gen/HelperGen.v proves to be the translated source of optimal_extra_steps)'),
+   lifted('C15_helper_source_is_pure','HelperGenSpec','oes_shape_is_Em',HELPER_SRC),
+   lifted('C15_mixhelper_cache_coherent','MixHelperCoh','mixhelper_cache_coherent','THE THIRD PROCESS-GLOBAL CACHE (cache_step around optimal_steps_mixed, Model/Binomial.v OsmS): every reachable dictionary holds only valid keys with the cost MixDP.C n s of the canonical plan'),
+   lifted('C15_mixhelper_history_independent','MixHelperCoh','mixhelper_history_independent','... so a successful call returns, whatever the call history, the value of the pure recursion MixHelperSpec.osm_shape, which Gen/MixHelperGen.v proves to be the translated source of optimal_steps_mixed')])
 mk('C16', ['TabEq','TabSim','MemoCoh','MixPaths','GenLang5','GenMixed','TabulGenSpec'], [lifted('C16_mixed_source_is_model','GenMixed','mixed_from_start',MIXED_SRC),
    lifted('C16_tabulation_is_source','TabulGenSpec','tabul_shape_is_model','THE TABULATED PLANNER IS THE SOURCE: TabulGenSpec.tabul_shape is the Gallina function harness/translate.py renders from mixed_steps_tabulation (a cell schedule[n_i, s_i, :] is one entry of Mixed.table, an assignment Mixed.tset, a read Mixed.tget, assert raises AssertionError; Gen/TabulGen.v re-translates the current source on every run and proves the result equal to this term by conversion); for n >= 1 it returns a table exactly when the extracted Mixed.tabulate does, the same one (they differ only in the exception and read order of a failing assert, which C16_tabulate_planC excludes)'),
    lifted('C16_streams_equal','MixPaths','mixed_paths_same_stream','STREAMS: on the extracted model the whole monitored run of MixedCheckpointSchedule -- every outcome, every observation (n, r, max_n, flags, uses_storage_type) and the executor state -- is the same on the tabulated path (tab = true) and on the memoised path (tab = false), for every N, unit count, storage and number of requests'),
